@@ -137,6 +137,21 @@ pub fn run(ctx: &Ctx, rep: &mut Report) {
             }
         });
     }
+    // ---- encode: every u64 whose eight bytes are each one of {00, 01, 80, FF} (sparse and dense byte patterns)
+    {
+        let n = 65536u64;
+        ctx.family(rep, "enc-byte-patterns", "every u64 whose 8 bytes are each one of {0x00,0x01,0x80,0xFF} (4^8 values), as U64 and - where it fits - as U32", n, true, |i, rep| {
+            let pal = [0x00u64, 0x01, 0x80, 0xFF];
+            let mut v = 0u64;
+            for k in 0..8 {
+                v = (v << 8) | pal[((i >> (2 * k)) & 3) as usize];
+            }
+            check_value("enc-byte-patterns", i, 8, v, rep);
+            if v <= u32::MAX as u64 {
+                check_value("enc-byte-patterns", i, 4, v, rep);
+            }
+        });
+    }
     // ---- encode: powers of two and 256^k neighbours, MAX
     {
         let mut vals: Vec<u64> = vec![0, u64::MAX, u32::MAX as u64, u32::MAX as u64 + 1];
